@@ -203,7 +203,7 @@ def run_one(m, keep=False):
                 ast.parse(s2)
             except SyntaxError as e:
                 return m, 'SETUP', f"mutant does not parse: {e}"
-        env = dict(os.environ, PV_REPO=tmp, PV_EVIDENCE_DIR=os.path.join(tmp, 'evidence'), PV_JOBS='4')
+        env = dict(os.environ, PV_REPO=tmp, PV_EVIDENCE_DIR=os.path.join(tmp, 'evidence'), PV_JOBS=os.environ.get('PV_SELFTEST_JOBS', '1'))
         p = subprocess.run([os.path.join(VERIF, 'check'), m['prop'], '--tier', 'quick'], cwd=VERIF, env=env, capture_output=True, text=True, timeout=900)
         out = p.stdout + p.stderr
         vio = [l for l in out.splitlines() if l.startswith('  rule=')]
@@ -221,7 +221,7 @@ def run_one(m, keep=False):
 def main():
     ap = argparse.ArgumentParser()
     ap.add_argument('--only', default=None)
-    ap.add_argument('--jobs', type=int, default=4)
+    ap.add_argument('--jobs', type=int, default=12)
     a = ap.parse_args()
     ms = [m for m in M if not a.only or a.only in m['id'] or a.only == m['prop']]
     res = []
